@@ -6,6 +6,10 @@ import GoLevel.Driver.LSM
 import GoLevel.Driver.Table
 import GoLevel.Driver.Conc
 import GoLevel.Driver.WriteProto
+import GoLevel.Driver.Mem
+import GoLevel.Driver.Life
+import GoLevel.Driver.Cache
+import GoLevel.Driver.RefLoop
 /-! `gldriver`: reads one operation per line on stdin, answers one line per operation on stdout.
 The first token selects the layer.  Core-only (must link). -/
 open GoLevel GoLevel.Driver
@@ -15,6 +19,9 @@ structure DState where
   lsm : LsmState := {}
   conc : ConcState := {}
   wp : WpState := initWp
+  mem : MemState := {}
+  cache : CacheSt := {}
+  ref : RefSt := {}
 
 def dispatch (st : DState) (line : String) : DState × String :=
   let toks := (line.splitOn " ").filter (· ≠ "")
@@ -34,6 +41,19 @@ def dispatch (st : DState) (line : String) : DState × String :=
   | "wp" :: rest =>
     match handleWp st.wp rest with
     | some (wp', out) => ({ st with wp := wp' }, out)
+    | none => (st, "bad-op")
+  | "life" :: rest => (st, (handleLife rest).getD "bad-op")
+  | "mem" :: rest =>
+    match handleMem st.mem rest with
+    | some (m', out) => ({ st with mem := m' }, out)
+    | none => (st, "bad-op")
+  | "cache" :: rest =>
+    match handleCache st.cache rest with
+    | some (c', out) => ({ st with cache := c' }, out)
+    | none => (st, "bad-op")
+  | "ref" :: rest =>
+    match handleRef st.ref rest with
+    | some (r', out) => ({ st with ref := r' }, out)
     | none => (st, "bad-op")
   | "it" :: rest =>
     match handleIt st.it rest with
